@@ -96,11 +96,19 @@ func scalarReflectFromGo(schema *schema_j5pb.Field, value interface{}) (protoref
 		}
 
 		if numVal, ok := value.(json.Number); ok {
-			i64, err := numVal.Int64()
-			if err != nil {
-				return pv, err
+			if st.Integer.Format == schema_j5pb.IntegerField_FORMAT_UINT64 {
+				u64, err := strconv.ParseUint(numVal.String(), 10, 64)
+				if err != nil {
+					return pv, err
+				}
+				value = u64
+			} else {
+				i64, err := numVal.Int64()
+				if err != nil {
+					return pv, err
+				}
+				value = i64
 			}
-			value = i64
 		}
 
 		switch st.Integer.Format {
